@@ -163,7 +163,35 @@ class Report:
             return []
         return [e for e in data.get('findings', []) if e.get('property') == self.pid]
 
+    def _deductive_verdicts(self):
+        """failed / undischarged obligations -> violations or 'undecided' (DESIGN.md 6)"""
+        bounded = [v for v in self.violations.values() if v.tier == 'B']
+        for f in getattr(self, 'pending_failed', []):
+            base = f.get('baseline')
+            changed = base is not None and base.get('hash') != f['hash']
+            if f['status'] == 'failed':
+                # the solver produced a counter-model of the verification condition
+                rp = f.get('replayed')
+                self.violation(f['name'], 'deductive', f.get('model'), 'obligation discharged',
+                               'counter-model found by %s' % f.get('solver', 'solver'),
+                               replay={'kind': 'obligation', 'contract': f['key'], 'native_replay': rp,
+                                       'related_bounded_witness': jsonable(bounded[0].witness) if bounded else None},
+                               found_input=bool(rp and rp.get('confirmed')) or bool(bounded),
+                               solver_output=f.get('reason') or 'sat', tier='P')
+            elif changed:
+                # discharged for a different function text in the committed baseline, not dischargeable now
+                self.violation(f['name'], 'deductive', None, 'obligation discharged (as in proof_baseline.json for '
+                               'function text %s)' % base.get('hash'),
+                               'undischarged for function text %s: %s' % (f['hash'], f.get('reason') or 'unknown'),
+                               replay={'kind': 'obligation', 'contract': f['key'],
+                                       'related_bounded_witness': jsonable(bounded[0].witness) if bounded else None},
+                               found_input=bool(bounded), solver_output=f.get('reason') or 'unknown/timeout', tier='P')
+            else:
+                # unchanged function text (or never proved): solver instability / engine limit, not a violation
+                self.undecided.append((f['name'], f.get('reason') or 'unknown'))
+
     def finish(self):
+        self._deductive_verdicts()
         known = [e for e in self._known() if e.get('status') == 'known']
         new, reobserved = [], []
         for key, v in self.violations.items():
@@ -180,7 +208,10 @@ class Report:
         os.makedirs(EVIDENCE_DIR, exist_ok=True)
         for e, v in reobserved:
             self.out('KNOWN-FINDING: property=%s %s' % (self.pid, e.get('what', v.obligation)))
-        for v in new:
+        new.sort(key=lambda v: (v.tier == 'B', v.obligation))
+        for nv, v in enumerate(new):
+            if nv == 12:
+                self.out('  ... %d further violation groups are listed in the evidence file' % (len(new) - 12))
             path = os.path.join(REPLAY_DIR, '%s-%s.json' % (self.pid, slug(v.obligation + '-' + v.witness_class)))
             with open(path, 'w') as fh:
                 json.dump({'property': self.pid, 'obligation': v.obligation,
@@ -190,6 +221,8 @@ class Report:
                            'replay': jsonable(v.replay), 'found_input': v.found_input,
                            'solver_output': v.solver_output,
                            'how': './check %s --replay %s' % (self.pid, path)}, fh, indent=1)
+            if nv >= 12:
+                continue
             self.out('VIOLATION property=%s replay=%s%s' % (
                 self.pid, path, '' if v.found_input else ' no-failing-input-found'))
             self.out('  obligation=%s class=%s occurrences=%d' % (v.obligation, v.witness_class, v.count))
